@@ -126,7 +126,7 @@ Definition req_eff (e : effect) (a : astate) : bool :=
   let R := holds LReg (a_locks a) in
   match e with
   | ENewStudy => R && f_regmiss a && negb L && no_debt a
-  | ERegister => R && d_reg a
+  | ERegister => R && d_reg a && f_regmiss a
   | EGetLatest => negb (d_lat a)
   | EAppend => L && f_idfresh a && f_room a && negb (d_ip a) && negb (d_lat a)
   | EIncPend => d_ip a
